@@ -1,20 +1,36 @@
 (* GuiLoop.v -- model of the GUI client's receive thread, `launch_rdp_thread` of
-   src/bin/mstsc-rs.rs, as a transition system over an environment.
+   src/bin/mstsc-rs.rs, TOGETHER WITH the client mutex it shares with the GUI thread
+   (`main_gui_loop`), as a transition system over an environment.
 
-     while wait_for_fd(fd) && sync.load() {            (* select() on the SOCKET only      *)
-         let mut guard = rdp_client.lock().unwrap();
-         loop {                                         (* fix 5166c7a (variant: drain)     *)
-             if let Err(e) = guard.read(cb) { ...; return }   (* fix db33aad (variant: break_any);
-                                                                  before: only Err(RdpError) ended the loop *)
+     while wait_for_fd(fd)                              (* AtWait : select() on the SOCKET only     *)
+           && sync.load() {                             (* AtSync : only now is `sync` looked at     *)
+         let mut guard = rdp_client.lock().unwrap();    (* AtLock : blocks while the GUI holds it    *)
+         loop {                                         (* fix 5166c7a (variant: drain)              *)
+             if let Err(e) = guard.read(cb) {           (* AtRead : one PDU through the TLS stream   *)
+                 ...; return }                          (* AtDrop : guard dropped, then AtRet        *)
+                                                        (* fix db33aad (variant: break_any);
+                                                           before: only Err(RdpError) ended the loop *)
              if guard.buffered_read_size() == 0 { break }
          }
-     }
+     }                                                  (* AtUnlock : guard dropped, back to AtWait  *)
+                                                        (* AtRet : the closure returns, its clone of
+                                                           the Arc<Mutex<RdpClient>> is dropped      *)
+
+   The GUI thread (main_gui_loop) uses the same Arc<Mutex<RdpClient>>:
+     per frame:  { let g = rdp_client.lock(); g.try_write(pointer event) }   { lock; try_write(key)* }
+     on exit:    sync.store(false);  rdp_client.lock().unwrap().shutdown()
+   `sync` is cleared OUTSIDE the critical section (both stores of main_gui_loop), the client is
+   touched only through a guard.  The GUI is not given a program: its actions [GuiLock],
+   [GuiWrite], [GuiShutdown], [GuiUnlock], [GuiStop] are chosen by the adversarial scheduler like
+   the server's; an action that is not possible now (lock taken by the other thread, no guard
+   held) leaves the state unchanged -- a blocked lock() is a GuiLock that is retried later.
 
    Environment: the socket's receive queue as a list of TLS records, the TLS object's
    decrypted-but-unread plaintext, whether and how the connection was closed, the `sync`
-   flag.  `wait_for_fd` sees ONLY the socket; `read` consumes ONE PDU through the TLS buffer.
-   Plaintext is abstracted to tokens: a PDU is any number of [Frag] tokens followed by one
-   [Fin p] token, so a record boundary can fall anywhere inside or between PDUs.
+   flag, the mutex, what the client has written.  `wait_for_fd` sees ONLY the socket; `read`
+   consumes ONE PDU through the TLS buffer.  Plaintext is abstracted to tokens: a PDU is any
+   number of [Frag] tokens followed by one [Fin p] token, so a record boundary can fall
+   anywhere inside or between PDUs.
 
    The loop is parameterised by a [variant] so that both the code as found ([original]) and
    the code as repaired ([repaired], what /repo contains and what the correspondence runs)
@@ -40,9 +56,22 @@ Inductive sockend : Type :=
 
 Inductive pc : Type :=
 | AtWait          (* in / before select() *)
-| AtLock          (* select returned, sync was true; about to lock and read *)
+| AtSync          (* select returned 1; about to load `sync` *)
+| AtLock          (* sync was true; in rdp_client.lock() *)
 | AtRead          (* holding the mutex, inside RdpClient::read (possibly in the middle of a PDU) *)
-| Exited.         (* the closure returned: JoinHandle finishes, the Arc<Mutex<RdpClient>> clone is dropped *)
+| AtUnlock        (* end of the while body: the guard is about to be dropped, then back to select *)
+| AtDrop          (* `return` inside the locked block: the guard is about to be dropped *)
+| AtRet           (* the closure returns: its captured clone of the Arc is about to be dropped *)
+| Exited.         (* JoinHandle finished *)
+
+(* the std::sync::Mutex around the RdpClient *)
+Inductive lockst : Type := Free | HeldByRecv | HeldByGui.
+
+(* what the client puts on the outbound side of the socket (the server drains it) *)
+Inductive wev : Type :=
+| WInput (n : N)          (* try_write: one input PDU *)
+| WUltimatum              (* shutdown(): the client's disconnect provider ultimatum ... *)
+| WCloseNotify.           (* ... followed by its TLS close_notify *)
 
 Record st : Type := mkSt {
   sock : list record;        (* TLS records in the kernel's receive queue *)
@@ -51,52 +80,67 @@ Record st : Type := mkSt {
   sync : bool;
   pcs : pc;
   out : list N;              (* events sent on the bitmap channel, in order *)
+  lock : lockst;
+  refs : nat;                (* strong count of the Arc<Mutex<RdpClient>>: the owner's handle + the thread's clone *)
+  outb : list wev;           (* written by the client while the server was there to read it *)
+  wshut : bool;              (* the client has sent its close_notify: nothing can be written any more *)
   (* GHOST fields, for the statements only (no step reads them): *)
   hist : list token;         (* every token the server's writes put into the receive queue *)
   cons : list token;         (* the tokens RdpClient::read has consumed *)
   lost : list token          (* what a RST threw away *)
 }.
 
-Definition init : st := mkSt [] None [] true AtWait [] [] [] [].
+Definition init : st := mkSt [] None [] true AtWait [] Free 2 [] false [] [] [].
 
 Record variant : Type := mkVariant { break_any : bool; drain : bool }.
 Definition original : variant := mkVariant false false.
 Definition repaired : variant := mkVariant true true.
 
 Definition set_pc (s : st) (p : pc) : st :=
-  mkSt (sock s) (closed s) (tls s) (sync s) p (out s) (hist s) (cons s) (lost s).
+  mkSt (sock s) (closed s) (tls s) (sync s) p (out s) (lock s) (refs s) (outb s) (wshut s) (hist s) (cons s) (lost s).
 
-(* where the loop goes after read returned Err of class c *)
+Definition set_lock_pc (s : st) (l : lockst) (p : pc) : st :=
+  mkSt (sock s) (closed s) (tls s) (sync s) p (out s) l (refs s) (outb s) (wshut s) (hist s) (cons s) (lost s).
+
+Definition set_lock (s : st) (l : lockst) : st := set_lock_pc s l (pcs s).
+
+(* RdpClient::read made progress: new socket queue, new TLS buffer, next pc, forwarded events, consumed tokens *)
+Definition set_read (s : st) (sk : list record) (tl : list token) (p : pc) (o : list N) (c : list token) : st :=
+  mkSt sk (closed s) tl (sync s) p o (lock s) (refs s) (outb s) (wshut s) (hist s) c (lost s).
+
+(* where the loop goes after read returned Err of class c: out of the thread, or (loop as found, non-Rdp error)
+   to the end of the while body *)
 Definition after_err (v : variant) (c : errclass) : pc :=
-  if break_any v then Exited else match c with ERdp => Exited | EOther => AtWait end.
+  if break_any v then AtDrop else match c with ERdp => AtDrop | EOther => AtUnlock end.
 
 Definition is_nil {A} (l : list A) : bool := match l with [] => true | _ => false end.
 
-(* One step of the thread; None = it cannot move (blocked in select, blocked in read, or gone). *)
+Definition lock_free (s : st) : bool := match lock s with Free => true | _ => false end.
+Definition gui_holds (s : st) : bool := match lock s with HeldByGui => true | _ => false end.
+
+(* One step of the thread; None = it cannot move (blocked in select, in lock(), in read, or gone). *)
 Definition tstep (v : variant) (s : st) : option st :=
   match pcs s with
   | Exited => None
   | AtWait =>
     (* wait_for_fd: readable = queued data, or EOF / error condition on a closed socket *)
     if is_nil (sock s) && match closed s with None => true | Some _ => false end then None
-    else Some (set_pc s (if sync s then AtLock else Exited))
-  | AtLock => Some (set_pc s AtRead)
+    else Some (set_pc s AtSync)
+  | AtSync => Some (set_pc s (if sync s then AtLock else AtRet))
+  | AtLock => if lock_free s then Some (set_lock_pc s HeldByRecv AtRead) else None
   | AtRead =>
     match tls s with
     | t :: rest =>
       match t with
-      | Frag => Some (mkSt (sock s) (closed s) rest (sync s) AtRead (out s) (hist s) (cons s ++ [t]) (lost s))
+      | Frag => Some (set_read s (sock s) rest AtRead (out s) (cons s ++ [t]))
       | Fin (PEvents evs) =>
-        Some (mkSt (sock s) (closed s) rest (sync s)
-                   (if drain v && negb (is_nil rest) then AtRead else AtWait)
-                   (out s ++ evs) (hist s) (cons s ++ [t]) (lost s))
-      | Fin (PFail c) =>
-        Some (mkSt (sock s) (closed s) rest (sync s) (after_err v c) (out s) (hist s) (cons s ++ [t]) (lost s))
+        Some (set_read s (sock s) rest (if drain v && negb (is_nil rest) then AtRead else AtUnlock)
+                       (out s ++ evs) (cons s ++ [t]))
+      | Fin (PFail c) => Some (set_read s (sock s) rest (after_err v c) (out s) (cons s ++ [t]))
       end
     | [] =>
       match sock s with
-      | r :: rs =>      (* SSL_read pulls one record *)
-        Some (mkSt rs (closed s) r (sync s) AtRead (out s) (hist s) (cons s) (lost s))
+      | r :: rs => Some (set_read s rs r AtRead (out s) (cons s))      (* SSL_read pulls one record *)
       | [] =>
         match closed s with
         | Some _ => Some (set_pc s (after_err v EOther))     (* read_exact fails: Error::Io / SslError *)
@@ -104,31 +148,55 @@ Definition tstep (v : variant) (s : st) : option st :=
         end
       end
     end
+  | AtUnlock => Some (set_lock_pc s Free AtWait)
+  | AtDrop => Some (set_lock_pc s Free AtRet)
+  | AtRet =>
+    Some (mkSt (sock s) (closed s) (tls s) (sync s) Exited (out s) (lock s) (pred (refs s)) (outb s) (wshut s)
+               (hist s) (cons s) (lost s))
   end.
 
-(* what the environment can do *)
+(* what the environment can do: the server, and the GUI thread *)
 Inductive action : Type :=
 | Send (r : record)       (* one server write = one TLS record *)
 | Close (k : sockend)
-| GuiStop.                (* the GUI loop clears `sync` *)
+| GuiStop                 (* the GUI loop clears `sync` *)
+| GuiLock                 (* rdp_client.lock(): succeeds only on a free mutex *)
+| GuiWrite (n : N)        (* guard.try_write(input event) *)
+| GuiShutdown             (* guard.shutdown() *)
+| GuiUnlock.              (* the guard is dropped *)
+
+(* the client writes w: it reaches the server if the connection is still open in both directions *)
+Definition gui_put (s : st) (w : list wev) (shut : bool) : st :=
+  if gui_holds s && negb (wshut s) && match closed s with None => true | Some _ => false end then
+    mkSt (sock s) (closed s) (tls s) (sync s) (pcs s) (out s) (lock s) (refs s) (outb s ++ w) shut
+         (hist s) (cons s) (lost s)
+  else s.
 
 Definition env_step (a : action) (s : st) : st :=
   match a with
   | Send r =>
     match closed s with
     | Some _ => s
-    | None => mkSt (sock s ++ [r]) None (tls s) (sync s) (pcs s) (out s) (hist s ++ r) (cons s) (lost s)
+    | None => mkSt (sock s ++ [r]) None (tls s) (sync s) (pcs s) (out s) (lock s) (refs s) (outb s) (wshut s)
+                   (hist s ++ r) (cons s) (lost s)
     end
   | Close k =>
     match closed s with
     | Some _ => s
     | None =>
       match k with
-      | Reset => mkSt [] (Some k) (tls s) (sync s) (pcs s) (out s) (hist s) (cons s) (concat (sock s))
-      | _ => mkSt (sock s) (Some k) (tls s) (sync s) (pcs s) (out s) (hist s) (cons s) (lost s)
+      | Reset => mkSt [] (Some k) (tls s) (sync s) (pcs s) (out s) (lock s) (refs s) (outb s) (wshut s)
+                      (hist s) (cons s) (concat (sock s))
+      | _ => mkSt (sock s) (Some k) (tls s) (sync s) (pcs s) (out s) (lock s) (refs s) (outb s) (wshut s)
+                  (hist s) (cons s) (lost s)
       end
     end
-  | GuiStop => mkSt (sock s) (closed s) (tls s) false (pcs s) (out s) (hist s) (cons s) (lost s)
+  | GuiStop => mkSt (sock s) (closed s) (tls s) false (pcs s) (out s) (lock s) (refs s) (outb s) (wshut s)
+                    (hist s) (cons s) (lost s)
+  | GuiLock => if lock_free s then set_lock s HeldByGui else s
+  | GuiWrite n => gui_put s [WInput n] false
+  | GuiShutdown => gui_put s [WUltimatum; WCloseNotify] true
+  | GuiUnlock => if gui_holds s then set_lock s Free else s
   end.
 
 (* a schedule interleaves environment actions ([Some a]) with single thread steps ([None]) *)
@@ -140,7 +208,7 @@ Definition sched_step (v : variant) (s : st) (x : option action) : st :=
 
 Definition run (v : variant) (sc : list (option action)) (s : st) : st := fold_left (sched_step v) sc s.
 
-(* the environment is silent: let the thread run until it cannot move *)
+(* the environment is silent and the GUI idle: let the thread run until it cannot move *)
 Inductive quiet : Type :=
 | RQuiet (s : st)       (* blocked or exited *)
 | RSpin (s : st).       (* still iterating when the fuel ran out *)
@@ -151,12 +219,46 @@ Fixpoint quiesce (v : variant) (fuel : nat) (s : st) : quiet :=
   | S f => match tstep v s with None => RQuiet s | Some s' => quiesce v f s' end
   end.
 
-(* enough fuel for every step that consumes something: 3 steps per token (read, wait, lock),
+(* enough fuel for every step that consumes something: 5 steps per token (read, unlock, select, sync, lock),
    one per record, and the few steps of the last iteration *)
 Definition ntok (s : st) : nat := length (tls s) + length (concat (sock s)).
-Definition pc_rank (p : pc) : nat := match p with Exited => 0 | AtRead => 1 | AtLock => 2 | AtWait => 3 end.
-Definition measure (s : st) : nat := 3 * ntok s + length (sock s) + pc_rank (pcs s).
+Definition pc_rank (p : pc) : nat :=
+  match p with Exited => 0 | AtRet => 1 | AtDrop => 2 | AtRead => 3 | AtLock => 4 | AtSync => 5 | AtWait => 6 | AtUnlock => 7 end.
+Definition measure (s : st) : nat := 5 * ntok s + length (sock s) + pc_rank (pcs s).
 Definition fuel_of (s : st) : nat := S (measure s).
+
+(* ---- schedules in which the server is silent, and how much of such a schedule the thread gets *)
+
+(* the server does nothing in x: a thread step or an action of the GUI thread *)
+Definition silent (x : option action) : bool :=
+  match x with Some (Send _) | Some (Close _) => false | _ => true end.
+
+(* the thread is in lock() and the GUI holds the mutex *)
+Definition mutex_blocked (s : st) : bool :=
+  match pcs s with AtLock => gui_holds s | _ => false end.
+
+(* FAIRNESS, as a number: the turns the scheduler gives the thread at moments when the thread is not waiting for
+   the GUI to release the mutex.  (A turn of a thread blocked in select / read, or of a finished thread, counts;
+   a turn wasted on a mutex the GUI holds does not.) *)
+Fixpoint turns (v : variant) (sc : list (option action)) (s : st) : nat :=
+  match sc with
+  | [] => O
+  | x :: r =>
+    (match x with None => if mutex_blocked s then O else 1%nat | Some _ => O end + turns v r (sched_step v s x))%nat
+  end.
+
+(* the steps the thread actually takes in a schedule *)
+Fixpoint moves (v : variant) (sc : list (option action)) (s : st) : nat :=
+  match sc with
+  | [] => O
+  | x :: r =>
+    (match x with None => match tstep v s with Some _ => 1%nat | None => O end | Some _ => O end
+     + moves v r (sched_step v s x))%nat
+  end.
+
+(* the thread has come to rest for a reason that is NOT the GUI: blocked in select, blocked inside a read, or gone *)
+Definition settled (v : variant) (s : st) : bool :=
+  match tstep v s with Some _ => false | None => negb (mutex_blocked s) end.
 
 (* the four ways a session ends, as environment actions *)
 Inductive endkind : Type :=
@@ -177,3 +279,19 @@ Fixpoint evs_of (l : list token) : list N :=
   | Fin (PEvents e) :: r => e ++ evs_of r
   | Fin (PFail _) :: _ => []
   end.
+
+(* the thread is inside the client (holds a MutexGuard) *)
+Definition recv_inside (s : st) : bool :=
+  match pcs s with AtRead | AtUnlock | AtDrop => true | _ => false end.
+
+(* schedule items by which the GUI writes to the socket *)
+Definition is_gui_write (x : option action) : bool :=
+  match x with Some (GuiWrite _) | Some GuiShutdown => true | _ => false end.
+
+(* everything but the outbound side *)
+Definition recv_view (s : st) : st :=
+  mkSt (sock s) (closed s) (tls s) (sync s) (pcs s) (out s) (lock s) (refs s) [] false (hist s) (cons s) (lost s).
+
+(* what the harness reports as rel=1: the thread finished, only the owner's handle is left, the mutex can be taken *)
+Definition released (s : st) : bool :=
+  match pcs s with Exited => Nat.eqb (refs s) 1 && negb (match lock s with HeldByRecv => true | _ => false end) | _ => false end.
